@@ -107,6 +107,7 @@ func Funcs() vuego.FuncMap {
 			return strings.Repeat(s, n)
 		},
 		"isBig": func(n int) bool { return n > 10 },
+		"pad":   func(k, v string) string { return k + "=" + v },
 		// functions that take the render context first and / or a variadic tail whose element
 		// type differs from the last fixed parameter (all total: they never panic themselves)
 		"joinn": func(ctx *vuego.VueContext, n int, parts ...string) string {
@@ -314,6 +315,17 @@ func All() []Program {
 			"page.vuego":          "---\nlayout: shell\ntitle: OnceTitle\n---\n" + `<template #head><style v-once>.h{}</style><b>{{ who }}</b></template><script v-once>var a = 1;</script><ul><li v-for="r in rows"><i v-once>once {{ who }}</i>{{ r }}</li></ul>`,
 			"layouts/shell.vuego": `<html><head><title>{{ title }}</title></head><body><header><slot name="head">no head</slot></header><style v-once>.l{}</style><main v-html="content"></main>` + end + `</body></html>`,
 		}, Data: map[string]vals.V{"who": s("lonceWHO"), "rows": list("r1", "r2")}, Feat: []string{"layout", "front-matter", "v-once", "slot", "handover"}},
+		// two pages of one site whose expressions differ only in the blanks INSIDE a string literal
+		// (compiled expressions are cached per engine)
+		{Name: "expr-twins", Alt: "alt/page.vuego", Files: map[string]string{
+			"page.vuego":     `<pre>{{ who + ":  " + who }}|{{ who == "a  b" ? "two" : "other" }}</pre><p :title="who + '  x'" v-if="who != 'twin  WHO'">{{ pad("k",   who) }}</p>` + end,
+			"alt/page.vuego": `<pre>{{ who + ": " + who }}|{{ who == "a b" ? "two" : "other" }}</pre><p :title="who + ' x'" v-if="who != 'twin WHO'">{{ pad("k", who) }}</p>` + end,
+		}, Data: map[string]vals.V{"who": s("twin WHO")}, Feat: []string{"expr", "string-literals", "sibling-page"}},
+		// a layout whose last root-level node is text: the document does not end in a line break
+		{Name: "layout-text-tail", FileOnly: true, Files: map[string]string{
+			"page.vuego":         "---\nlayout: tail\n---\n" + `<p>{{ who }}</p>`,
+			"layouts/tail.vuego": `<div v-html="content"></div>` + end + `(c) {{ who }} ACME`,
+		}, Data: map[string]vals.V{"who": s("tailWHO")}, Feat: []string{"layout", "front-matter", "text-tail"}},
 		// a registered stateful node processor (render-scoped state via New)
 		{Name: "proc-counter", Opts: []string{"counter"}, Files: map[string]string{
 			"page.vuego": `<section><p v-for="r in rows">{{ r }} {{ who }}</p><template include="c.vuego" :v="who"></template></section>` + end,
